@@ -1,0 +1,27 @@
+//go:build verif
+
+package mergeset
+
+// Thin read-only accessors for the C13 purge correspondence harness of /verif. No behaviour of their own.
+
+// VerifC13MaxInmemoryBlockSize is the capacity of the in-memory block genTempPart fills.
+const VerifC13MaxInmemoryBlockSize = maxInmemoryBlockSize
+
+// VerifC13PartItems returns, for every part of the table (in the order of tb.parts), a copy of the part's items in
+// the order a partSearch yields them - the order genTempPart reads them in.
+func (tb *Table) VerifC13PartItems() [][][]byte {
+	pws := tb.getParts(nil)
+	defer tb.putParts(pws)
+	out := make([][][]byte, 0, len(pws))
+	for _, pw := range pws {
+		var ps partSearch
+		ps.Init(pw.p)
+		ps.Seek(pw.p.ph.firstItem)
+		items := [][]byte{}
+		for ps.NextItem() {
+			items = append(items, append([]byte(nil), ps.Item...))
+		}
+		out = append(out, items)
+	}
+	return out
+}
